@@ -193,16 +193,19 @@ def readyGate {β} (s : St β) (allowIncomplete wait : Bool) : St β × Bool :=
 def cleanUpResolved (cleanUp : Option Bool) (allowIncomplete : Bool) : Bool :=
   Gen.cleanUpDefault (cleanUp.isNone) (cleanUp.getD false) allowIncomplete
 
-/-- the all-missing stand-in, made from the first entry of some finished result (lowest id here) -/
+def ResFile.isBad {β} : ResFile β → Bool
+  | .bad => true
+  | .good _ => false
+
+/-- the all-missing stand-in, made from the first entry of some finished result (the first listed here; any
+unreadable result file makes the reap fail sooner or later, so which one is picked does not matter) -/
 def allNanResult {β} (nanLike : β → β) (d : Dir β) : Except Err β :=
   match d.results with
   | [] => .error .noResultForNan
-  | _ =>
-    match d.results.find? (fun kv => match kv.2 with | .good _ => false | .bad => true) with
-    | some _ => .error .badFile
-    | none =>
-      match d.results.head? with
-      | some (_, .good (r :: _)) => .ok (nanLike r)
+  | (_, r) :: _ =>
+    if d.results.any (fun kv => kv.2.isBad) then .error .badFile
+    else match r with
+      | .good (x :: _) => .ok (nanLike x)
       | _ => .error .badFile
 
 /-- one step of the Reaper's stream: load result file `i0+1`, or substitute placeholders of the batch's size -/
@@ -217,9 +220,10 @@ def reapStep {β} (o : Obj) (d : Dir β) (dflt : Option β) (acc : Except Err (L
       match dflt with
       | none => .error .missingFile
       | some ph =>
-        match o.bs, o.rem with
-        | some bs, some rem => .ok (stream ++ List.replicate (Gen.reaperDefaultSize bs (i0 + 1 : Nat) rem).toNat ph)
-        | _, _ => .error .type
+        -- the stand-in has the length of the sown batch file it replaces
+        match lookup d.batches (i0 + 1) with
+        | some b => .ok (stream ++ List.replicate b.length ph)
+        | none => .error .missingFile
 
 /-- the Reaper's stream: result files 1..nb in order, a missing one replaced by placeholders of the batch's size -/
 def reapStream {β} (o : Obj) (d : Dir β) (nb : Nat) (dflt : Option β) : Except Err (List β) :=
